@@ -1,7 +1,10 @@
 import FeatModel.Model.Proto
 import FeatModel.Model.Partition
+import FeatModel.Model.PartitionRefine
+import FeatModel.Model.PartitionSplit
 /-! line-protocol driver for the C12 models (patch extraction, halos, neighbour ranks, Parti2Lvl) -/
 open FeatModel FeatModel.Proto FeatModel.Adj FeatModel.Parti
+open FeatModel.Refine (Kind Part)
 
 namespace FeatModel.DrvC12
 
@@ -41,9 +44,45 @@ def showRank (m : Mesh) (p : Parti) (r : Nat) : String :=
   let nums := dims.map fun d => toString (m.target cells d).length
   let ms := (pairs m.dim).map fun (hi, lo) => showNatsL (m.patchIdx cells hi lo).flatten
   let nbrs := Graph.sortList comm      -- the halo map is a std::map<int,...>: ascending rank
+  let built := haloProtocol m p r      -- one factory, rebuilt per neighbour in discovery order
   let hs := nbrs.map fun s =>
-    " ".intercalate (toString s :: dims.map fun d => showNatsL (halo m p r s d))
+    let ts := match built.find? (fun e => e.1 == s) with | some e => e.2 | none => []
+    " ".intercalate (toString s :: dims.map fun d => showNatsL (ts.getD d []))
   " ".intercalate (["C", showNatsL comm, "T"] ++ ts ++ ["M"] ++ nums ++ ms ++ ["H", toString nbrs.length] ++ hs)
+
+def kindOf : String → Kind
+  | "s2" => .simplex | "s3" => .simplex | _ => .hypercube
+
+def meshXP (D : Nat) : P (Mesh × List (List Rat)) := do
+  let num ← many (D + 1) nat
+  let verts ← many (num.getD 0 0) (many D rat)
+  let sets ← setsP num (pairs D)
+  pure ({ dim := D, num := num, sets := sets }, verts)
+
+def showSets (M : FeatModel.Refine.Mesh) : List String :=
+  (pairs M.dim).map fun (hi, lo) => showNatsL (M.idx hi lo).flatten
+
+def showCoords (M : FeatModel.Refine.Mesh) : List String :=
+  ["X", showRatsL M.verts.flatten]
+
+def showNums (M : FeatModel.Refine.Mesh) : List String :=
+  (List.range (M.dim + 1)).map fun d => toString (M.num d)
+
+/-- level dump of rank `r` after `depth` joint refinements -/
+def showRankRefined (kind : Kind) (m : Mesh) (verts : List (List Rat)) (p : Parti) (depth r : Nat) : String :=
+  let dims := List.range (m.dim + 1)
+  let comm := commRanks m p r
+  let q0 := initialSide kind m verts p r r
+  let bp := partSteps depth (q0.base, q0.part)
+  let nbrs := Graph.sortList comm
+  let built := haloProtocol m p r
+  let mesh := (partSteps depth (q0.mesh, q0.halo)).1
+  let hs := nbrs.map fun s =>
+    let ts := match built.find? (fun e => e.1 == s) with | some e => e.2 | none => []
+    let h := (partSteps depth (q0.mesh, ({ targets := ts, topo := none } : Part))).2
+    " ".intercalate (toString s :: dims.map fun d => showNatsL (h.target d))
+  " ".intercalate (["C", showNatsL comm, "T"] ++ dims.map (fun d => showNatsL (bp.2.target d)) ++ ["M"] ++
+    showNums mesh ++ showSets mesh ++ showCoords mesh ++ ["H", toString nbrs.length] ++ hs)
 
 def handle : P String := do
   let op ← tok
@@ -59,6 +98,43 @@ def handle : P String := do
       else
         let ranks := (List.range p.nDom).map (showRank m p)
         pure (" ".intercalate (["L", toString p.nDom] ++ ranks))
+  | "refine" =>
+    let sh ← tok
+    match dimOf sh with
+    | none => throw s!"unknown shape {sh}"
+    | some D =>
+      let depth ← nat
+      let (m, verts) ← meshXP D
+      let p ← graphP
+      if !extractOk m p then pure "ABORT"
+      else
+        let base := (partSteps depth (asRefine (kindOf sh) m verts, patchPart m [])).1
+        let ranks := (List.range p.nDom).map (showRankRefined (kindOf sh) m verts p depth)
+        pure (" ".intercalate (["B"] ++ showNums base ++ showSets base ++ showCoords base ++
+          ["L", toString p.nDom] ++ ranks))
+  | "hsplit" =>
+    let sh ← tok
+    match dimOf sh with
+    | none => throw s!"unknown shape {sh}"
+    | some D =>
+      let m ← meshP D
+      let p ← graphP
+      let childOf ← natList
+      if !extractOk m p then pure "ABORT"
+      else
+        let dims := List.range (D + 1)
+        let parents := (List.range p.nDom).map fun a =>
+          let nc := numChildren p childOf a
+          let kids := (List.range nc).map fun ch =>
+            let ts := dims.map fun d => showNatsL (childTarget m (p.row a) childOf ch d)
+            let nbrs := Graph.sortList (commRanks m p a)
+            let hs := nbrs.flatMap fun b => (List.range (numChildren p childOf b)).filterMap fun dh =>
+              let ls := dims.map fun d => childHalo m p childOf a ch b dh d
+              if ls.all (·.isEmpty) then none
+              else some (" ".intercalate ([toString b, toString dh] ++ ls.map showNatsL))
+            " ".intercalate (["K"] ++ ts ++ ["H", toString hs.length] ++ hs)
+          " ".intercalate (["P", toString nc] ++ kids)
+        pure (" ".intercalate (["HS", toString p.nDom] ++ parents))
   | "split" =>
     let sh ← tok
     match dimOf sh with
